@@ -121,11 +121,17 @@ def raised_in_repo(exc):
     return bool(last) and str(last).startswith(str(loader.REPO))
 
 
+def _pyfn(*a, **k):
+    return None
+
+
 class Builder:
     """Performs the DSL calls of one program on the real API and logs the events."""
 
-    def __init__(self, backend, *, seed=0, decorate=True):
+    def __init__(self, backend, *, seed=0, decorate=True, python=False):
         hb, _bk, self.BatchException = api()
+        self.python = python     # consumer-only jobs become PythonJobs whose resource uses are arguments of call()
+        self.pyjobs = set()
         self.b = hb.Batch(backend=backend, name="p")
         self.jobs = {}
         self.ins = {}
@@ -186,7 +192,7 @@ class Builder:
     def do_NewJob(self, op, ev):
         i = len(self.jobs) + 1
         name = JOB_NAMES[(i + self.seed) % len(JOB_NAMES)] if self.decorate else None
-        j = self.b.new_job(name=name)
+        j = self.b.new_python_job(name=name) if i in self.pyjobs else self.b.new_job(name=name)
         if op["always"]:
             j.always_run()
         self.jobs[i] = j
@@ -228,6 +234,22 @@ class Builder:
         ev.update(j=op["j"], toks=toks)
         # resolve the references only now: attribute access creates the JobResourceFile, like in an f-string
         args = {k: self.res(t["r"]) for k, t in enumerate(toks) if t["t"] == "ref"}
+        if op["j"] in self.pyjobs:
+            # PythonJob: the same uses, as arguments of call() in the four shapes handle_args distinguishes
+            pos, kw = [], {}
+            for n, k in enumerate(sorted(args)):
+                shape = (n + self.seed + op["j"]) % 4
+                if shape == 0:
+                    pos.append(args[k])
+                elif shape == 1:
+                    kw[f"k{n}"] = args[k]
+                elif shape == 2:
+                    pos.append([1, (args[k],)])
+                else:
+                    kw[f"k{n}"] = {"x": [args[k]]}
+            ev["shapes"] = [(n + self.seed + op["j"]) % 4 for n in range(len(args))]
+            self.jobs[op["j"]].call(_pyfn, *pos, **kw)
+            return
         parts = [t["s"] if t["t"] == "lit" else str(args[k]) for k, t in enumerate(toks)]
         self.jobs[op["j"]].command("\t".join(parts))
 
@@ -243,6 +265,19 @@ class Builder:
 
     def build(self, prog, group_members=()):
         self.group_members = group_members
+        if self.python:
+            producers = {op["j"] for op in prog if op["op"] == "DeclareGroup"}
+            consumers = set()
+            for op in prog:
+                refs = [t["r"] for t in op.get("toks", []) if t["t"] == "ref"] + list(op.get("refs", []))
+                if op["op"] in ("AddExt", "WriteOutput"):
+                    refs.append(op["r"])
+                for r in refs:
+                    if r.get("k") in ("jf", "rg", "gm"):
+                        producers.add(r["j"])
+                if op["op"] == "Command" and refs:
+                    consumers.add(op["j"])
+            self.pyjobs = consumers - producers
         for op in prog:
             self.call(op)
             if self.aborted:
@@ -251,7 +286,7 @@ class Builder:
 
 
 # ------------------------------------------------------------------------------------------------------
-def run_local(prog, fails, workdir, *, seed=0, execute=True):
+def run_local(prog, fails, workdir, *, seed=0, execute=True, python=False):
     """Build prog on a LocalBackend whose jobs append their id to a marker file and exit 1 if in `fails`;
     returns the event list (build events + what Batch.run did).  execute=False: the backend is replaced by a
     probe that only records the numbering Batch._async_run hands to it (no job is run)."""
@@ -275,11 +310,15 @@ def run_local(prog, fails, workdir, *, seed=0, execute=True):
 
     be = ProbeLocal(tmp_dir=str(workdir / "tmp"))
     try:
-        bd = Builder(be, seed=seed, decorate=False).build(prog)
+        if python and execute:
+            raise RuntimeError("the PythonJob variant is numbering-only")
+        bd = Builder(be, seed=seed, decorate=False, python=python).build(prog)
         ev = bd.events
         if bd.aborted:
             return ev
         for i in sorted(bd.jobs):
+            if i in bd.pyjobs:
+                continue
             bd.call({"op": "Command", "j": i,
                      "toks": [{"t": "lit", "s": f"echo {i} >> {shlex.quote(str(logf))}; {'false' if i in fails else 'true'}"}]})
         ids = {j: i for i, j in bd.jobs.items()}
@@ -334,7 +373,7 @@ def run_local(prog, fails, workdir, *, seed=0, execute=True):
 def _local_task(args):
     k, prog, fails, wd, seed = args
     try:
-        return k, run_local(prog, set(fails or ()), wd, seed=seed, execute=fails is not None), None
+        return k, run_local(prog, set(fails or ()), wd, seed=seed, execute=fails is not None, python=(fails is None and k[-1] == -2)), None
     except BaseException as e:  # machinery problem: reported by the parent
         import traceback
 
@@ -368,7 +407,7 @@ def strip_events(ev):
     """events as written to the trace file (diagnostic fields removed)"""
     out = []
     for e in ev:
-        e = {k: v for k, v in e.items() if k not in ("exc", "job_ids", "always_run", "raw_command")}
+        e = {k: v for k, v in e.items() if k not in ("exc", "job_ids", "always_run", "raw_command", "shapes")}
         out.append(e)
     return out
 
